@@ -527,6 +527,11 @@ func (x *Exec) lenOf(v Val) Val {
 		case kSlice:
 			return Val{T: x.vc.slLen(v), Sort: x.vc.intSort(), GoT: intT}
 		case kMap:
+			// len() of a map: its well-formedness (non-negative size, a present key means a non-empty
+			// non-nil map) holds of every real map value
+			if !strings.Contains(v.T, "!q") {
+				x.vc.termFact(x.vc.wf(v))
+			}
 			return Val{T: x.vc.mapCard(v), Sort: x.vc.intSort(), GoT: intT}
 		case kArray:
 			return Val{T: x.vc.intLit(v.GoT.(types.Type).Underlying().(*types.Array).Len()), Sort: x.vc.intSort(), GoT: intT}
@@ -934,7 +939,11 @@ func (x *Exec) applyContractSig(st *State, call *ast.CallExpr, sig *types.Signat
 			x.vc.note("ensures of " + c.Local + " mentioning the callee's locals not available to callers: " + trunc(en.Src, 60))
 		}
 	}
-	x.prog.usedContracts[x.fname+" -> "+c.Key+" ["+c.Kind+"]"] = true
+	kind := c.Kind
+	if c.Opts["trusted"] {
+		kind = "trusted"
+	}
+	x.prog.usedContracts[x.fname+" -> "+c.Key+" ["+kind+"]"] = true
 	return results
 }
 
